@@ -47,8 +47,9 @@ type dgramRec struct {
 	uidOK, authOK bool
 	entry         *aeadEntry
 	cookies       [][]byte // the cookies the datagram carries in authenticated fields (only if uidOK and authOK)
-	raw           []byte // SCION: the datagram on the underlay
-	front         string // SCION: the parser's view, as a case-file value
+	raw           []byte   // SCION: the datagram on the underlay
+	front         string   // SCION: the parser's view, as a case-file value
+	vi            viewInfo // SCION: end-to-end extension, authenticator verdict, timestamp option
 }
 
 type reqRec struct {
@@ -60,8 +61,9 @@ type reqRec struct {
 	recipes     []recipe
 	sent        []dgramRec
 	ke          [][]byte // the cookies of the key exchange the client made for this exchange, if any
-	timeout     bool // the script ends without a decisive datagram: the client runs into its deadline
+	timeout     bool     // the script ends without a decisive datagram: the client runs into its deadline
 	addr        netip.AddrPort
+	reqAuth     bool // SCION: the request carries the packet authenticator of the client direction
 }
 
 type worker struct {
@@ -73,6 +75,7 @@ type worker struct {
 	connS        *net.UDPConn // SCION underlay socket of the scripted peer
 	keLn         net.Listener
 	kePort       int
+	keAnnounce   int // != 0: the port the key exchange names (SCION histories: the underlay socket of the peer)
 
 	mu       sync.Mutex
 	s2c, c2s []byte
@@ -190,9 +193,13 @@ func (w *worker) keLoop() {
 			}
 			w.keSeq++
 			w.lastKE = issued
+			port := w.udpPort()
+			if w.keAnnounce != 0 {
+				port = w.keAnnounce
+			}
 			w.mu.Unlock()
 			msg.AddRecord(ntske.Server{Addr: []byte(w.addrA.String())})
-			msg.AddRecord(ntske.Port{Port: uint16(w.udpPort())})
+			msg.AddRecord(ntske.Port{Port: uint16(port)})
 			msg.AddRecord(ntske.End{})
 			buf, err := msg.Pack()
 			if err != nil {
@@ -620,6 +627,23 @@ func (w *worker) build(rc recipe, rq *reqRec, idx int) (payload []byte, fromServ
 	return b, fromServer
 }
 
+// ntsFacts: what the holder of the keys knows about a delivered payload: does it
+// carry the request's unique identifier, does it verify under the S2C key, which
+// cookies does it carry in authenticated fields.
+func (w *worker) ntsFacts(d *dgramRec, rq *reqRec) {
+	pl := d.payload
+	uid, uf, nonce, ct, ap, af := walk(pl)
+	d.uidOK = uf && bytes.Equal(uid, rq.uid)
+	if af {
+		pt, ok := aeadOpen(rq.s2c, nonce, ct, pl[:ap])
+		d.authOK = ok
+		if ok && d.uidOK {
+			d.cookies = append(cookieFields(pl, 48, ap), cookieFields(pt, 0, len(pt))...)
+		}
+		d.entry = &aeadEntry{key: rq.s2c, nonce: nonce, ad: append([]byte(nil), pl[:ap]...), ct: ct, ok: ok, pt: pt}
+	}
+}
+
 // udpLoop answers every request with the datagrams of its script, in order,
 // followed by two one-byte datagrams that end the call whatever happened
 // before (unless the script is meant to run the client into its deadline).
@@ -654,16 +678,7 @@ func (w *worker) udpLoop() {
 			pl, fs := w.build(rc, rq, i)
 			d := dgramRec{fromServer: fs, payload: pl, otherPort: rc.kind == 21}
 			if w.nts {
-				uid, uf, nonce, ct, ap, af := walk(pl)
-				d.uidOK = uf && bytes.Equal(uid, rq.uid)
-				if af {
-					pt, ok := aeadOpen(rq.s2c, nonce, ct, pl[:ap])
-					d.authOK = ok
-					if ok && d.uidOK {
-						d.cookies = append(cookieFields(pl, 48, ap), cookieFields(pt, 0, len(pt))...)
-					}
-					d.entry = &aeadEntry{key: rq.s2c, nonce: nonce, ad: append([]byte(nil), pl[:ap]...), ct: ct, ok: ok, pt: pt}
-				}
+				w.ntsFacts(&d, rq)
 			}
 			if (rc.kind == 0 || rc.kind == 1) && genuine == nil {
 				genuine = pl
